@@ -211,9 +211,7 @@ Proof.
     destruct Tt as (en & Hen & Hc & Hk). rewrite Hen in H.
     destruct (tout th) as [v s| |] eqn:Hout.
     + destruct (nth_error (caches st) (tcache th)) as [ca|] eqn:Hca; [|discriminate].
-      inversion H; subst st'. clear H. simpl.
-      match goal with |- inv_coh (set_thr (set_entries st ?es) t ?p) =>
-        replace (set_thr (set_entries st es) t p) with (set_thr (set_gens (set_entries st es) (gens st)) t p) by (destruct st; reflexivity) end.
+      inversion H; subst st'. clear H.
       apply inv_coh_thread with (th := th); auto.
       * apply ents_le_upd. intros; split; reflexivity.
       * intros e en' He. rewrite nth_error_upd in He. destruct (Nat.eqb_spec i e).
